@@ -13,7 +13,37 @@ class Case:
         self.key = key if key is not None else line
 
 
-def differential(ck, impl_exe, cases, oracle, corr_exempt=None, env=None, need_spec=True, replay_cmd=None, label=""):
+def pick_for_src(cases_with_ids, budget=2500, long_ones=12):
+    """subset of the cases that is also run on the translated source under the MiniC interpreter (it is ~10^3 times slower
+    than the implementation): every case up to the budget (measured in hex characters of input, a proxy for the number
+    of blocks), shortest first within each case class so that all classes stay represented, plus a few long ones"""
+    by_cls = {}
+    for cid, c in cases_with_ids:
+        by_cls.setdefault(c.cls, []).append((len(c.line), cid))
+    chosen, cost = set(), 0
+    for cls in sorted(by_cls):
+        by_cls[cls].sort()
+    progress = True
+    idx = 0
+    while progress and cost < budget * 128:
+        progress = False
+        for cls in sorted(by_cls):
+            l = by_cls[cls]
+            if idx < len(l):
+                n, cid = l[idx]
+                if cost + n <= budget * 128 or idx == 0:
+                    chosen.add(cid)
+                    cost += n
+                progress = True
+        idx += 1
+    longest = sorted(((len(c.line), cid) for cid, c in cases_with_ids), reverse=True)[:long_ones]
+    for n, cid in longest:
+        if n < 40000:
+            chosen.add(cid)
+    return chosen
+
+
+def differential(ck, impl_exe, cases, oracle, corr_exempt=None, env=None, need_spec=True, replay_cmd=None, label="", src=False, src_norm=None):
     """cases: list of Case. oracle(case, impl, spec, model) -> None if the property holds on this
     case, else a string describing the violation (optionally (string, class))."""
     mdrv = ck.model_driver()
@@ -29,6 +59,12 @@ def differential(ck, impl_exe, cases, oracle, corr_exempt=None, env=None, need_s
     impl = wv.run_lines([impl_exe], lines, env=e)
     model = wv.run_lines([mdrv], lines)
     spec = wv.run_lines([mdrv, "spec"], lines) if need_spec else {}
+    srcres = {}
+    if src:
+        pick = pick_for_src(list(ids.items()))
+        srcres = wv.run_lines([mdrv, "src"], [l for l in lines if l.split(" ", 1)[0] in pick], shards=wv.NCPU, env=e)
+        ck.cov["src_evaluations"] = ck.cov.get("src_evaluations", 0) + len(srcres)
+    src_diffs = []
     corr_diffs = []
     nviol = 0
     dist = ck.cov.setdefault("case_classes", {})
@@ -48,6 +84,11 @@ def differential(ck, impl_exe, cases, oracle, corr_exempt=None, env=None, need_s
                                 "replay": replay_cmd or "echo 'x %s' | <driver built by check.py from /repo>" % c.line[:2000]})
         elif ri != rm and not (corr_exempt and corr_exempt(c, ri, rm)):
             corr_diffs.append((c, ri, rm))
+        if cid in srcres:
+            rsrc = srcres[cid]
+            a, b = (src_norm(c, ri, rsrc) if src_norm else (ri, rsrc))
+            if a != b:
+                src_diffs.append((c, ri, rsrc))
         if len(ck.cov["samples"]) < 12 and (len(ck.cov["samples"]) < 4 or c.cls not in [s.get("class") for s in ck.cov["samples"]]):
             ck.cov["samples"].append({"class": c.cls, "case": c.line[:300], "implementation": ri[:200], "model": rm[:200], "spec": rs[:200]})
     ck.cov["distinct_nontrivial"] = len(distinct)
@@ -56,6 +97,11 @@ def differential(ck, impl_exe, cases, oracle, corr_exempt=None, env=None, need_s
         c, ri, rm = corr_diffs[0]
         ck.violation("correspondence model/implementation no longer checks (%d cases differ) but no input violating the property was found" % len(corr_diffs),
                      {"class": None, "broken": "correspondence " + label, "case": c.line, "implementation": ri[:4000], "model": rm[:4000]}, found_input=False)
+    ck.cov["disagreements_source_vs_impl"] = ck.cov.get("disagreements_source_vs_impl", 0) + len(src_diffs)
+    if src_diffs and nviol == 0 and not corr_diffs:
+        c, ri, rsrc = src_diffs[0]
+        ck.violation("correspondence translated-source(MiniC)/implementation no longer checks (%d cases differ) but no input violating the property was found" % len(src_diffs),
+                     {"class": None, "broken": "correspondence translated source vs implementation " + label, "case": c.line, "implementation": ri[:4000], "translated_source": rsrc[:4000]}, found_input=False)
     return impl, model, spec
 
 
